@@ -10,7 +10,7 @@ RULE = ('cases = generated DSG spec (G-SEL u G-CON u G-CONN u G-DV) x encoder {C
         'declared space (<=512, else corners + 192 pseudo-random); oracle = R-SEL/R-CONN membership; non-trivial = '
         'reference has >= 2 architectures and at least one vector is corrected or has an inactive variable; distinct by '
         'sha1(spec, encoder)')
-BUDGET = {'quick': 150, 'thorough': 3000}
+BUDGET = {'quick': 150, 'thorough': 5000}
 EXPLICIT = ('ValueError', 'RuntimeError')
 
 
